@@ -113,7 +113,8 @@ def gen_node_view(r, ref, prefer=None, allow_scope=True):
         p = {"cell": 0.8, "branch": 0.65, "comp": 0.45}[lv]
         if r.random() < p:
             if lv == "comp" and r.random() < 0.2:
-                steps.append(["loc", r.choice([0.0, 1.0, 0.5, round(r.random(), 3), 0.25, 0.75])])
+                steps.append(["loc", r.choice([0.0, 1.0, 0.5, round(r.random(), 3), 0.25, 0.75, "all", "all",
+                                                [round(r.random(), 3) for _ in range(r.randint(1, 3))]])])
             else:
                 steps.append([lv, idx(r, 3)])
     return steps
